@@ -120,18 +120,18 @@ _CRYPTO_TRUSTED = ["Model/Cenc.lean hand transcription of mp4/crypto.go (protect
 PROPS["C07"] = {
     "level": "proof",
     "technique": "Lean 4 proof (sub-sample mask = standard's mask for every well-formed sample; CTR/CBC-pattern modes over an abstract block cipher; IV arithmetic) + function- and fragment-level correspondence with an independent reference cipher",
-    "level_text": "Model lean/Mp4ff/Model/Cenc.lean transcribes the range computation for AVC/HEVC (uint32 arithmetic), AppendProtectRange, CryptSampleCenc, cbcsCrypt/cryptSampleCbcs and incrementIV, parametric in the block cipher; theorems in Props/C07.lean; Model/Protect.lean transcribes the box bookkeeping of EncryptFragment (saiz/saio/senc appended, per-sample auxiliary sizes, saio offset walk, SetTrunDataOffsets in Fragment.Encode + DecodeFile), theorems in Props/C06b.lean (saiz/saio/senc consistency for every fragment); tie = model-vs-code correspondence on ranges, CTR/CBC outputs (Lean AES in the driver) and IV increments, plus a fragment-level oracle: library-encrypted fragments are checked against crypto/cipher reference implementations, CENC well-formedness (partition, clear headers, saiz/saio/senc consistency, IV sequence).",
-    "level_note": "Trusted: Lean kernel, allowed axioms, transcription validated by correspondence; AES itself is not verified. cbcs slice-header sizes come from the slice header parsers (C15).",
+    "level_text": "Model lean/Mp4ff/Model/Cenc.lean transcribes the range computation for AVC/HEVC under cenc and cbcs (uint32 arithmetic; for cbcs parametric in the slice header size), AppendProtectRange, CryptSampleCenc, cbcsCrypt/cryptSampleCbcs and incrementIV, parametric in the block cipher; theorems in Props/C07.lean (cenc and cbcs masks for every well-formed sample); Model/Protect.lean transcribes the box bookkeeping of EncryptFragment (8-byte caller IV zero-extended before the one-byte size check, saiz/saio/senc appended, per-sample auxiliary sizes, saio offset walk, SetTrunDataOffsets in Fragment.Encode + DecodeFile), theorems in Props/C06b.lean (saiz/saio/senc consistency for every fragment and caller IV length: entries = bytes written, offset + sum = end of senc, or refused); tie = model-vs-code correspondence on ranges (cenc: synthetic samples; cbcs: generated AVC access units, the model composing Model/AvcSlice.lean slice header sizes with the range computation on the serialiser's parameter-set values), CTR/CBC outputs (Lean AES in the driver), IV increments and prot.enc / prot.enciv (caller IV 8/16/invalid x sub-sample entries swept around the saiz byte limit), plus direct oracles: cbcs sub-sample maps against the slice header byte lengths known to the independent AVC serialiser (C15 generator), library-encrypted fragments (repository segments and generated AVC tracks) against crypto/cipher reference implementations, CENC well-formedness (partition, clear headers, saiz/saio/senc consistency incl. an independent byte-level parse of the written boxes, IV sequence).",
+    "level_note": "Trusted: Lean kernel, allowed axioms, transcription validated by correspondence; AES itself is not verified. cbcs slice-header sizes come from the slice header parsers (theorems: C15; here AVC is tied end to end by the cbcs.avcranges correspondence and the serialiser oracle, HEVC only through the repository segment and the reference cipher).",
     "trusted": _CRYPTO_TRUSTED,
     "extra_props": ["C06b"],
-    "unmodelled": ["second-phase parse of the senc payload bytes (assumed to succeed in Model/Protect.lean)", "int32 wrap of data offsets, tfhd base-data-offset, sort.Slice ties in the trun write order", "cbcs slice header size (supplied by the parser; C15)"],
+    "unmodelled": ["second-phase parse of the senc payload bytes (assumed to succeed in Model/Protect.lean)", "int32 wrap of data offsets, tfhd base-data-offset, sort.Slice ties in the trun write order", "cbcs slice header size as a theorem (protectRanges_cbcs holds for every header size function; the AVC parser model of C15 is composed with it in the driver and compared with the code on generated access units; HEVC cbcs header sizes: C15 only)"],
     "partial": [],
     "assumptions": ["samples are well-formed (length-prefixed, non-empty NAL units, total < 2^32)"],
 }
 PROPS["C06"] = {
     "level": "proof",
     "technique": "Lean 4 proof (CTR involution over the same sub-sample map; CBC pattern decrypt∘encrypt = id from D∘E = id; clear bytes untouched) + encrypt→decrypt round trips through the library API",
-    "level_text": "Theorems in Props/C06.lean hold for every sample, every sub-sample map that fits, every IV, every crypt/skip pattern, over an abstract block cipher with D∘E = id; theorems in Props/C06b.lean (model lean/Mp4ff/Model/Protect.lean: boxes with sizes, offsets and positions) hold for every fragment structure: decrypt ∘ write ∘ encrypt restores boxes, order, sizes, trun data offsets and the mdat position, non-protection boxes are kept unchanged, offsets move by exactly the moof growth, the protected sample entry is restored; tie = the C07 correspondence, the prot.enc / prot.lay / prot.dec / prot.all / prot.init / prot.deinit correspondence ops (real EncryptFragment / Encode+DecodeFile / DecryptFragment / InitProtect / DecryptInit on generated and synthetic fragments) plus fragment-level round trips (AVC/HEVC/AAC, cenc/cbcs, 8/16-byte IVs incl. all-ff, 1..3 fragments, extra boxes incl. vendor uuid, free and unknown boxes) comparing samples, timing, sample entry type and every non-protection box with the clear input.",
+    "level_text": "Theorems in Props/C06.lean hold for every sample, every sub-sample map that fits, every IV, every crypt/skip pattern, over an abstract block cipher with D∘E = id; theorems in Props/C06b.lean (model lean/Mp4ff/Model/Protect.lean: boxes with sizes, offsets and positions) hold for every fragment structure: decrypt ∘ write ∘ encrypt restores boxes, order, sizes, trun data offsets and the mdat position, non-protection boxes are kept unchanged, offsets move by exactly the moof growth, the protected sample entry is restored; tie = the C07 correspondence, the prot.enc / prot.enciv / prot.lay / prot.dec / prot.all / prot.init / prot.deinit correspondence ops (real EncryptFragment / Encode+DecodeFile / DecryptFragment / InitProtect / DecryptInit on generated and synthetic fragments, caller IV lengths 8 / 16 / invalid, sub-sample entries swept around the saiz byte limit) plus fragment-level round trips (AVC/HEVC/AAC and generated AVC tracks with slice headers of every kind, cenc/cbcs, 8/16-byte IVs incl. all-ff, 1..3 fragments, extra boxes incl. vendor uuid, free and unknown boxes) comparing samples, timing, sample entry type and every non-protection box with the clear input.",
     "level_note": "Trusted: as C07, plus Model/Protect.lean (hand transcription of the structure side of mp4/crypto.go, validated by the prot.* correspondence ops).",
     "trusted": _CRYPTO_TRUSTED + ["Model/Protect.lean: hand transcription of EncryptFragment / DecryptFragment / InitProtect / DecryptInit at the level of boxes with sizes, offsets and positions (no payload bytes)"],
     "extra_props": ["C06b"],
